@@ -8,3 +8,9 @@ class flag_saver {
   std::ostream& os_; std::ostream::fmtflags saved_; std::ostream::iostate state_;
 };
 bool show(int v) { flag_saver keep(std::cout); std::cout << std::hex << v << "\n"; return true; }
+
+// R-C11-2: a private stream on the caller's buffer; a stream buffer inserted wholesale
+#include <sstream>
+#include <fstream>
+bool dump(std::ostream& os, int v) { std::ostream out(os.rdbuf()); out << v << "\n"; return true; }	// BAD
+bool save(std::ofstream& outfile, std::stringbuf& body) { outfile << &body; outfile.close(); return outfile.good(); }	// BAD
